@@ -93,6 +93,10 @@ def run_step(job, ob):
             return val_of(pv), val_of(policy), val_of(V), val_of(solver.gamma)[()]
     for o in ex.explore(run):
         if o.exc is not None:
+            from ..harness import exc_origin
+            if exc_origin(o.exc) == "harness":
+                ob.fail_harness(f"harness raised: {o.exc!r}")
+                continue
             ob.fail_harness(f"raised: {o.exc!r}")
             continue
         pv, policy, V, g = o.value
@@ -157,6 +161,10 @@ def run_evaluate(job, ob):
     nbreak = 0
     for pi_, o in enumerate(outs):
         if o.exc is not None:
+            from ..harness import exc_origin
+            if exc_origin(o.exc) == "harness":
+                ob.fail_harness(f"harness raised: {o.exc!r}")
+                continue
             ob.fail_harness(f"raised: {o.exc!r}")
             continue
         r = o.value
@@ -229,6 +237,10 @@ def run_stability(job, ob):
     seen = set()
     for pi_, o in enumerate(outs):
         if o.exc is not None:
+            from ..harness import exc_origin
+            if exc_origin(o.exc) == "harness":
+                ob.fail_harness(f"harness raised: {o.exc!r}")
+                continue
             ob.fail_harness(f"raised: {o.exc!r}")
             continue
         r = o.value
@@ -275,6 +287,10 @@ def run_greedy(job, ob):
         outs = list(ex.explore(run))
     for pi_, o in enumerate(outs):
         if o.exc is not None:
+            from ..harness import exc_origin
+            if exc_origin(o.exc) == "harness":
+                ob.fail_harness(f"harness raised: {o.exc!r}")
+                continue
             ob.fail_harness(f"raised: {o.exc!r}")
             continue
         r = o.value
@@ -321,6 +337,10 @@ def run_initial(job, ob):
             outs = list(ex.explore(run))
         for pi_, o in enumerate(outs):
             if o.exc is not None:
+                from ..harness import exc_origin
+                if exc_origin(o.exc) == "harness":
+                    ob.fail_harness(f"harness raised: {o.exc!r}")
+                    continue
                 ob.fail_harness(f"raised: {o.exc!r}")
                 continue
             r = o.value
@@ -346,7 +366,8 @@ def run_initial(job, ob):
                     member, idx = kit.policy_row_index(list(pol[i]), r["aspace"])
                     ob.prove(f"first-policy-maximises-immediate-reward[{i}]", o.pc, zx.land(member, zx.eq(kit.lookup(rows, idx), kit.zmax_list(rows))),
                              kind="default first policy maximises immediate expected reward",
-                             cex=lambda m: dict(kind="initial", with_policy=False, cfg=cfg, R=kit.model_array(m, L.R), P=kit.model_array(m, L.P)))
+                             cex=lambda m: dict(kind="initial", with_policy=False, cfg=cfg, R=kit.model_array(m, L.R), P=kit.model_array(m, L.P),
+                                                V0=kit.model_array(m, L.V0), T=kit.model_array(m, L.T)))
     return ob.result()
 
 
@@ -426,7 +447,9 @@ def replay(data):
             want = np.asarray(pb.action_space)[PI0]
             return bool(not np.array_equal(np.asarray(s.policy), want)), f"initial policy {np.asarray(s.policy).tolist()} vs problem.initial_policy {want.tolist()}"
         R, P = (np.array(tofloat(c[x]), dtype=float) for x in ("R", "P"))
-        pb = Tab(cfg["S"], cfg["A"], cfg["E"], da=cfg["da"], R=R, P=P)
+        V0 = np.array(tofloat(c["V0"]), dtype=float) if c.get("V0") is not None else None
+        T = np.array(c["T"], dtype=np.int64) if c.get("T") is not None else None
+        pb = Tab(cfg["S"], cfg["A"], cfg["E"], da=cfg["da"], R=R, P=P, V0=V0, T=T)
         s = kit.make_solver("pi", pb, max_batch_size=2)
         q = (P * R).sum(-1)
         asp = np.asarray(pb.action_space)
